@@ -19,6 +19,7 @@ type Ctx struct {
 	fr    *Frame
 	spec  bool
 	bound map[string]Term
+	cur   *State // inside old(...): the current state (body locals have no entry value: old() leaves them as they are)
 }
 
 func (c *Ctx) with(name string, t Term) *Ctx {
@@ -254,6 +255,12 @@ func (e *Exec) ident(v *ast.Ident, c *Ctx) Term {
 	if k, ok := c.fr.names[v.Name]; ok {
 		if t, ok2 := c.st.vars[k]; ok2 {
 			return t
+		}
+		if c.cur != nil {
+			// old(e) affects the heap and the entry values of parameters; a local declared in the body keeps its current value
+			if t, ok2 := c.cur.vars[k]; ok2 {
+				return t
+			}
 		}
 		if t, ok2 := e.init0[k]; ok2 {
 			return t
